@@ -174,9 +174,10 @@ def run(ctx: Ctx) -> None:
         k1 = [(s, t) for c, s, t in statements(d, 1, comments=True) if c == 1]
         plan.append((d, k0, "full" if not d or not quick else "dev2"))
         plan.append((d, k1, "dev2" if (not quick or not d) else "dev1"))
-        if not quick:
+        if not quick and not d:
+            # every pair of constructs x every single option deviation, in the base dialect (complete, no slice)
             k2 = [(s, t) for c, s, t in statements(d, 2, comments=True) if c == 2]
-            plan.append((d, k2[::7], "dev1"))
+            plan.append((d, k2, "dev1"))
     pretty = [(s, ("pretty.sql",)) for s in corpus.pretty_sql()]
     ident = [(s, ("identity.sql",)) for s in corpus.identity_sql()]
     plan.append(("", pretty, "dev2"))
@@ -207,7 +208,7 @@ def run(ctx: Ctx) -> None:
         {
             "evaluations": res["evaluations"],
             "distinct_nontrivial": len(res["changed"]),
-            "rule": "trees = parses of G_core (comment-carrying grammar) k<=1 per dialect + hand-written comment/newline statements + "
+            "rule": "trees = parses of G_core (comment-carrying grammar) k<=1 per dialect" + ("" if quick else " and ALL of k<=2 in the base dialect (1-option deviations)") + " + hand-written comment/newline statements + "
                     "pretty.sql + identity.sql; options = full 6480-combination product for the simplest trees (base dialect), every 1- "
                     "and 2-option deviation from the defaults otherwise; non-trivial = (tree, dialect, options) whose text differs from "
                     "the default text.",
